@@ -28,7 +28,7 @@ from antlr4 import *
 from .aggregator import DocumentationAggregator
 from cminx import Settings
 from .documentation_types import DocumentationType, ModuleDocumentation
-from .parser import ParserErrorListener
+from .parser import ParserErrorListener, LexerErrorListener, CMakeSyntaxError
 from .parser.CMakeLexer import CMakeLexer
 from .parser.CMakeParser import CMakeParser
 from .rstwriter import RSTWriter, Directive
@@ -93,6 +93,7 @@ class Documenter(object):
         """
 
         self.parser.addErrorListener(ParserErrorListener())
+        self.lexer.addErrorListener(LexerErrorListener())
 
         # Hard part is done, we now have a fully usable parse tree, now we just
         # need to walk it
@@ -111,7 +112,12 @@ class Documenter(object):
 
         # Parse and lex the file, then walk the tree and aggregate the
         # documented commands
-        self.walker.walk(self.aggregator, self.parser.cmake_file())
+        tree = self.parser.cmake_file()
+        if self.parser.getNumberOfSyntaxErrors() > 0:
+            s = CMakeSyntaxError()
+            s.msg = f"{self.parser.getNumberOfSyntaxErrors()} syntax error(s) while parsing"
+            raise s
+        self.walker.walk(self.aggregator, tree)
 
         # All the documented commands are now stored in aggregator.documented,
         # each element is a namedtuple representing the type of documentation it is.
